@@ -202,6 +202,8 @@ class AngularCoordinates(CustomNumpyArray):
         other_xyz = other.to_3d()
         coord_diff_sq = (self_xyz - other_xyz) ** 2
         dists = np.sqrt(coord_diff_sq.sum(axis=1))
+        # chord between unit vectors, may exceed 2.0 only by numerical rounding
+        dists = np.minimum(dists, 2.0)
         return AngularDistances.from_3d(dists)
 
 
